@@ -501,7 +501,22 @@ func vCheckTriggerRestore(c *vCase, cfgPath string, saved []FullTriggerState) bo
 	cp := filepath.Join(c.Dir, "restore.yaml")
 	os.MkdirAll(c.Dir, 0o755)
 	os.WriteFile(cp, b, 0o644)
-	const n = 16
+	// The source has 16 channels, or (every other history, decided by what was saved) exactly as many as the
+	// highest saved channel index needs, so that the source's last channel is one that a saved group lists.
+	n := 16
+	top, sum := -1, 0
+	for gi := range saved {
+		for _, ci := range saved[gi].ChannelIndices {
+			sum += ci + 1
+			if ci > top {
+				top = ci
+			}
+		}
+	}
+	if top >= 0 && (sum+len(saved))%2 == 0 {
+		n = top + 1
+		c.Cov("trigger_restores_last_channel_listed", 1)
+	}
 	cmd := exec.Command(os.Args[0], "-test.run", "^TestVerif$")
 	cmd.Env = append(os.Environ(), "VERIF_CHILD=restore", "VERIF_CFG="+cp, fmt.Sprintf("VERIF_NCHAN=%d", n), "VERIF_PROP=C16", "HOME="+c.Dir)
 	out, err := cmd.CombinedOutput()
